@@ -13,7 +13,22 @@ FUNCTIONAL_KINDS = {"loop", "ensures", "call", "raises"}
 
 
 def _fid(low, fname):
-    return "%s:%s" % (low.short, fname)
+    return "%s:%s" % (low.short if not isinstance(low, str) else lower_pyx.short_of(low), fname)
+
+
+def outside_subset(e):
+    """the *code* uses a construct that the lowering / VC generation does not support (as opposed to a
+    contract that does not fit the code, which stays a checker error)"""
+    if isinstance(e, lower_pyx.LoweringError):
+        return True
+    msg = str(e)
+    return isinstance(e, SpecError) and not msg.startswith("contract of") \
+        and "outside the" in msg and "subset" in msg
+
+
+def ledger_ids(rep):
+    led = rep._ledger() or {}
+    return sorted(set(led.get("discharged", []) + led.get("bounded", [])))
 
 
 class KernRun:
@@ -28,12 +43,49 @@ class KernRun:
         self.stale = {}
         for rp, low in self.eng.lows.items():
             self.stale[rp] = lower_pyx.stale_lines(low)
+        self._unlowered_done = set()
+        self.files = list(lower_pyx.KERNEL_FILES)
+
+    # ------------------------------------------------------------------------------------------
+    def unlowered(self, relpath, fname, message, only=None):
+        """The source of one function (fname) or of a whole kernel file (fname=None) is outside the
+        supported subset: nothing can be proved about it.  Every obligation of it that is frozen in
+        the ledger (proof obligations; the artefact.* ones are reported by kern_diff) is emitted as
+        UNDECIDED, which core reports as VIOLATION ... no-failing-input-found.  Returns the number of
+        obligations emitted."""
+        key = (relpath, fname)
+        if key in self._unlowered_done:
+            return 0
+        self._unlowered_done.add(key)
+        if fname is None:
+            prefix = "%s/%s." % (self.prop, lower_pyx.short_of(relpath)[:-4].replace("/", "."))
+        else:
+            prefix = "%s/%s/" % (self.prop, self.eng.id_stem(relpath, fname))
+        n = 0
+        for oid in ledger_ids(self.rep):
+            if not oid.startswith(prefix) or "/artefact." in oid or (only and only not in oid):
+                continue
+            fn = fname if fname is not None else oid[len(prefix):].split("/")[0]
+            self.rep.add(core.Obligation(oid, core.UNDECIDED, backend="kernvc",
+                                         detail="source outside the supported subset: %s" % message,
+                                         functions=[_fid(relpath, fn)]))
+            n += 1
+        what = lower_pyx.short_of(relpath) + (":" + fname if fname else "")
+        self.rep.extra.setdefault("lowering_failed", {})[what] = message
+        self.rep.notes.append("source of %s is outside the supported subset (%s): %d ledger obligations "
+                              "reported as undecided" % (what, message, n))
+        return n
 
     # ------------------------------------------------------------------------------------------
     def lowering_evidence(self, relpaths):
         rep = self.rep
         dropped = {}
         types = {}
+        self.files = list(relpaths)         # the kernel files this property is about (see run)
+        for rp in relpaths:
+            if rp in self.eng.unlowered:
+                rep.extra.setdefault("lowering_failed", {})[lower_pyx.short_of(rp)] = self.eng.unlowered[rp]
+        relpaths = [rp for rp in relpaths if rp in self.eng.lows]
         for rp in relpaths:
             low = self.eng.lows[rp]
             dropped[low.short] = low.dropped
@@ -56,8 +108,22 @@ class KernRun:
         vcs = []
         par_summary = {}
         t_gen = time.time()
+        for rp in self.files:               # files that could not be lowered at all have no targets
+            if rp in eng.unlowered and (rp, None) not in self._unlowered_done:
+                if not self.unlowered(rp, None, eng.unlowered[rp], only=only) and not only:
+                    rep.error("%s cannot be lowered (%s) and the ledger has no obligation of it to report"
+                              % (lower_pyx.short_of(rp), eng.unlowered[rp]))
         for rp, fn in targets:
+            if rp in eng.unlowered:
+                continue
             low = eng.lows[rp]
+            if fn in low.failed:
+                if not self.unlowered(rp, fn, low.failed[fn], only=only) and not only:
+                    rep.add(core.Obligation("%s/%s/vcgen" % (self.prop, eng.id_stem(low, fn)), core.ERROR,
+                                            backend="kernvc", detail="source outside the supported subset and no "
+                                            "ledger obligation to report: %s" % low.failed[fn],
+                                            functions=[_fid(low, fn)]))
+                continue
             if fn not in low.funcs:
                 rep.add(core.Obligation("%s/%s/present" % (self.prop, eng.id_stem(low, fn)), core.ERROR,
                                         detail="function %s not found in %s" % (fn, low.short),
@@ -66,6 +132,8 @@ class KernRun:
             try:
                 vc = eng.generate(rp, fn)
             except (SpecError, lower_pyx.LoweringError, KeyError) as e:
+                if outside_subset(e) and self.unlowered(rp, fn, str(e), only=only):
+                    continue
                 rep.add(core.Obligation("%s/%s/vcgen" % (self.prop, eng.id_stem(low, fn)), core.ERROR,
                                         backend="kernvc",
                                         detail="VC generation failed (construct outside the subset or contract "
@@ -265,7 +333,12 @@ def replay_file(path, contracts_mod, override=None):
         print(json.dumps(data.get("witness"), indent=1)[:2000])
         return 1 if data.get("status") == core.FAILED else 2
     eng = kernvc.Engine(contracts_mod.CONTRACTS, contracts_mod.SPEC, override=override)
-    low = eng.lows[rp["relpath"]]
+    low = eng.lows.get(rp["relpath"])
+    if low is None or rp["function"] in low.tainted:
+        print("replay: the current source of %s:%s is outside the supported subset (%s); the recorded input "
+              "cannot be interpreted" % (rp["relpath"], rp["function"],
+                                         eng.unlowered.get(rp["relpath"]) or low.failed))
+        return 2
     fi = low.funcs[rp["function"]]
     contract = contracts_mod.CONTRACTS[rp["contract"]]
     inp = kern_native.inputs_from_json(fi, rp["inputs"])
